@@ -1254,7 +1254,29 @@ impl<'a> Rw<'a> {
         let mut call = vec![a(if r.chance(1, 2) { "t!" } else { "template-expand" }), a(&tname)];
         call.extend(args);
         let mut def = vec![a("deftemplate"), a(&tname), l(params.clone())];
-        match r.below(6) {
+        // a conditional directly inside another conditional, placed INSIDE one of the body's lists and
+        // followed, at that level or further out, by a list that has nothing to evaluate: the
+        // conditional pass has to come round twice for the first list while the later one is done
+        let nested_site = body.iter().enumerate().find_map(|(j, t)| match t {
+            T::L(ch) if ch.len() >= 3 && (ch[2..].iter().any(|c| matches!(c, T::L(_))) || body[j + 1..].iter().any(|c| matches!(c, T::L(_)))) => Some(j),
+            _ => None,
+        });
+        match r.below(8) {
+            6 | 7 if nested_site.is_some() => {
+                let j = nested_site.unwrap();
+                let kname = format!("{tname}k");
+                if let T::L(ps) = &mut def[2] {
+                    ps.push(a(&kname));
+                }
+                let mut b2 = body.clone();
+                if let T::L(ch) = &mut b2[j] {
+                    // wrap the first argument of the list: (h c1 rest…) → (h (if-equal $k yes (if-not-equal $k no c1)) rest…)
+                    let c1 = ch[1].clone();
+                    ch[1] = l(vec![a("if-equal"), a(&format!("${kname}")), a("yes"), l(vec![a("if-not-equal"), a(&format!("${kname}")), a("no"), c1])]);
+                }
+                def.extend(b2);
+                call.push(a("yes"));
+            }
             0 => {
                 // (if-equal $k x body…) (if-not-equal $k x other…)
                 let kname = format!("{tname}k");
